@@ -492,11 +492,22 @@ def c12_cow(R):
         construct="CompositeFrontend.merge disowns common solvers",
     )
     sp = ms["split"]
-    rets = [n for n in walk_no_nested(sp) if isinstance(n, ast.Return)]
-    ok = rets and all(
-        any(isinstance(x, ast.Call) and isinstance(x.func, ast.Attribute) and x.func.attr == "branch" for x in ast.walk(r))
-        for r in rets
-    )
+    # every child that split() touches is used only as the receiver of .branch(): wherever the loop over the children
+    # is written (comprehension in the return, a list built first and extended later, an explicit loop)
+    loops = [x for x in ast.walk(sp) if isinstance(x, (ast.For, ast.comprehension)) and "_solver_list" in ast.unparse(x.iter) or isinstance(x, (ast.For, ast.comprehension)) and "_solvers" in ast.unparse(x.iter)]
+    ok = bool(loops)
+    for lp in loops:
+        if not isinstance(lp.target, ast.Name):
+            ok = False
+            continue
+        v = lp.target.id
+        scope = lp if isinstance(lp, ast.For) else getattr(lp, "_parent", None)
+        uses = [x for x in ast.walk(scope) if isinstance(x, ast.Name) and x.id == v and isinstance(x.ctx, ast.Load)]
+        for u in uses:
+            par = getattr(u, "_parent", None)
+            gp = getattr(par, "_parent", None)
+            if not (isinstance(par, ast.Attribute) and par.attr == "branch" and isinstance(gp, ast.Call) and gp.func is par):
+                ok = False
     R.check(
         bool(ok),
         m,
